@@ -165,7 +165,7 @@ def gen_method(rng, name, pkg, force_verb=None):
                        "maptype": rng.choice(["string", "string", "int", "bool"])})
     rng.shuffle(params)
     if rng.random() < 0.7:
-        ctxp = {"name": "ctx", "kind": "ctx", "ptr": False}
+        ctxp = {"name": rng.choice(["ctx", "ctx", "cx", "reqCtx", "ctx2"]), "kind": "ctx", "ptr": False}
         if rng.random() < 0.85:
             params.insert(0, ctxp)
         else:
@@ -440,7 +440,8 @@ def coq_iface(ifc, pkg):
 
 
 def coq_fspec(f, n):
-    return "{| fs_name := %s; fs_alias := %s; fs_ptr := %s |}" % (coq_str(n), coq_str(f["alias"] or ""), coq_bool(f["ptr"]))
+    return ("{| fi_name := %s; fi_alias := %s; fi_exported := %s; fi_ptr := %s |}"
+            % (coq_str(n), coq_str(f["alias"] or ""), coq_bool(n[0].isupper()), coq_bool(f["ptr"])))
 
 
 def coq_pkind(p, pkg):
